@@ -101,6 +101,7 @@ static void case_reset(void)
   net_unique_names                                                   = 1;
   sim_no_subms_jitter                                                = 0;
   sim_answer_auth_soa_ttl                                            = 0;
+  sim_neg_ns_ttl                                                     = 0;
   sim_error_soa_ttl                                                  = 0;
   sim_fin_delay_us                                                   = 0;
   sim_zerolen_with_udp_reply                                         = 0;
